@@ -29,6 +29,36 @@ class Inconclusive(Exception):
     pass
 
 
+import logging as _logging
+
+
+class LogCounter(_logging.Handler):
+    """indipy's own log records, counted (and the last few kept) instead of
+    being printed: several checks use "an exception was logged" as a monitor."""
+
+    def __init__(self):
+        super().__init__()
+        self.counts = {}
+        self.last = []
+
+    def emit(self, record):
+        k = f"{record.levelname}:{record.name}"
+        self.counts[k] = self.counts.get(k, 0) + 1
+        if record.levelno >= _logging.WARNING:
+            self.last.append((record.levelname, record.name, record.getMessage()[:200],
+                              repr(record.exc_info[1])[:300] if record.exc_info else None))
+            del self.last[:-20]
+
+    def mark(self):
+        return dict(self.counts)
+
+    def since(self, mark, prefix="ERROR"):
+        return sum(v - mark.get(k, 0) for k, v in self.counts.items() if k.startswith(prefix))
+
+
+LOGS = LogCounter()
+
+
 def target_repo():
     """Make `import indi` resolve to the working tree under test."""
     if REPO not in sys.path[:1]:
@@ -38,6 +68,13 @@ def target_repo():
     f = os.path.realpath(indi.__file__)
     if not f.startswith(REPO + os.sep):
         raise SystemExit(f"indi imported from {f}, expected under {REPO}")
+    import logging
+
+    lg = logging.getLogger("indi")
+    if not any(isinstance(h, LogCounter) for h in lg.handlers):
+        lg.addHandler(LOGS)
+        lg.propagate = False
+        lg.setLevel(logging.INFO)
     return indi
 
 
@@ -142,6 +179,16 @@ class Ctx:
 
     def violated(self):
         return bool(self.violations)
+
+    def enough(self):
+        """True once continuing cannot change the verdict and would only cost
+        time: a hang was reproduced a few times, or very many violations."""
+        total = 0
+        for k, v in self.violations.items():
+            total += v["count"]
+            if ("hang" in k or "stall" in k) and v["count"] >= 3:
+                return True
+        return total >= 2000
 
     def mark_inconclusive(self, why):
         if why not in self.inconclusive:
